@@ -4,6 +4,8 @@ import (
 	"fmt"
 	"sync"
 
+	ws "github.com/gorilla/websocket"
+
 	"verif/internal/core"
 	"verif/internal/gen"
 	"verif/internal/xport"
@@ -134,6 +136,21 @@ func runC20(ctx *core.Ctx, out *core.Out) {
 		w.RunProgram(prog)
 		if !ok {
 			return false, 0
+		}
+		if faultAt < 0 {
+			// abandon by closing the connection while a message is open: the buffer goes
+			// back when the message ends (the writer's Close fails), exactly once
+			if wr, err := c.NextWriter(ws.TextMessage); err == nil {
+				wr.Write([]byte("abandoned by Conn.Close"))
+				c.Close()
+				// (whether Conn.Close itself may already hand the buffer back is not decided
+				// by the property; what is: exactly one Put of the buffer taken, none held after)
+				wr.Close()
+				if held, _ := pool.Outstanding(7); held != 0 {
+					return fail(fmt.Sprintf("buffers-held-%d-want-0", held), "after Conn.Close() and the writer's Close the connection's Get/Put balance is not zero"), 0
+				}
+				out.Count("conn_close_with_open_message", 1)
+			}
 		}
 		// abandon: whatever happened, nothing may be held now (RunProgram closes a trailing writer)
 		ev, faults := pool.Snapshot()
